@@ -295,6 +295,9 @@ def run_b(prop, tier, want_prof):
     if not want_prof:
         kf, kcov = keyed_checks(ld, r, tier, f'{prop}_{tier}_keyed')
         failures += kf
+        nf, ncov = inter_checks(ld, r, tier, f'{prop}_{tier}_inter')
+        failures += nf
+        kcov.update(ncov)
     ops = collections.Counter(x.op for m in meta for x in walk(m[0]))
     cov = dict(programs=len(cases), evaluations=len(cases), distinct=len(set(cases)),
                distinct_nontrivial=len(set(c for c, m in zip(cases, meta) if len(list(walk(m[0]))) >= 3 and len(m[1]) >= 2)),
@@ -451,6 +454,63 @@ def keyed_checks(ld, r, tier, tag):
             failures.append(dict(kind='program', summary=f'model and implementation disagree on keyed access ({m.group(2)}; 1 = keys(), 2 = ds[key] applications / value): {coq_lds(nd)[:400]} impl keys={keys} lookups={gets!r}'[:1400], config={}))
     hist = collections.Counter(g[0] for m in meta for k, g in m[2])
     return failures, dict(keyed_pipelines=len(cases), keyed_lookups=sum(len(m[2]) for m in meta), keyed_outcomes=dict(hist), keyed_disagreements=nbad)
+
+
+# ------------------------------------------------------------------ intersperse (TraceInter.v)
+def inter_checks(ld, r, tier, tag):
+    """intersperse of 2..3 lazy pipelines with an instrumented function at every stage: per next() exactly one element of one
+    input is evaluated (nothing is read ahead from the other inputs), compared with TraceInter.inter_s"""
+    big = tier != 'quick'
+    N = 1500 if big else 150
+    cases, meta, failures = [], [], []
+    with warnings.catch_warnings():
+        warnings.simplefilter('ignore')
+        while len(cases) < N:
+            common.tick()
+            ids = itertools.count(1)
+            kids = []
+            for _ in range(r.choice([2, 2, 3])):
+                nd = gen(r, ids, r.choice([1, 2, 3]), need_index=True)
+                kids.append(nd)
+            if any(not out_len(k) for k in kids):
+                continue
+            top = next(ids)
+            take_log()
+            try:
+                ds = ld.intersperse(*[build(k, ld) for k in kids])
+            except Exception:
+                continue
+            if take_log():
+                failures.append(dict(kind='program', summary='constructing an intersperse applied user functions', config={}))
+            del EARLY[:]
+            segs, fin = observe_iter(ds)
+            if EARLY:
+                failures.append(dict(kind='program', summary=f'iter() of an intersperse ran user functions before any result was requested: {EARLY[0][:5]}', config={}))
+            cases.append('(mkNC %d%%nat %s (%s, %s))' % (top, F.coq_list([coq_lds(k) for k in kids]),
+                                                       F.coq_list(['(%s, %s)' % (coq_apps(a), F.coq_val(v)) for a, v in segs]), coq_apps(fin)))
+            meta.append((kids, segs, fin))
+    d = common.fresh_dir(tag)
+    files = []
+    per = 150
+    hdr = HEADER.replace('LD.TraceTie', 'LD.TraceTie LD.TraceInter')
+    for s0 in range(0, len(cases), per):
+        f = os.path.join(d, f'n_{s0 // per:03d}.v')
+        with open(f, 'w') as fh:
+            fh.write(hdr)
+            fh.write('Definition cases : list ncase := [\n' + ';\n'.join(cases[s0:s0 + per]) + '\n].\n')
+            fh.write('Eval vm_compute in (nbad 0 cases).\n')
+        files.append((s0, f))
+    outs = common.run_case_files([f for _, f in files])
+    nbad = 0
+    for s0, f in files:
+        out = outs[f]
+        body = out[out.index('=') + 1:out.rindex(':')]
+        for x in re.findall(r'\d+', body):
+            i = s0 + int(x)
+            nbad += 1
+            kids, segs, fin = meta[i]
+            failures.append(dict(kind='program', summary=f'model and implementation disagree on the per-next() applications of intersperse({", ".join(coq_lds(k)[:150] for k in kids)}): impl segs={segs!r} final={fin!r}'[:1400], config={}))
+    return failures, dict(intersperse_pipelines=len(cases), intersperse_disagreements=nbad)
 
 
 def walk(nd):
